@@ -448,7 +448,7 @@ def resume_functions(db, ctor_or_fn_name):
     out = []
     for f in db.fns(ctor_or_fn_name):
         for e in f.events():
-            if e.k in ('call', 'construct') and (norm(e.get('callee')) in ('cocls::awaiter::set_resume_fn', 'cocls::awaiter::awaiter') or norm(e.get('callee') or '').endswith('_promise_base::future_conv_promise_base') or 'awaiter::awaiter' in norm(e.get('callee') or '')):
+            if e.k in ('call', 'construct') and (norm(e.get('callee')) in ('cocls::awaiter::set_resume_fn', 'cocls::awaiter::awaiter') or norm(e.get('callee') or '').endswith('_promise_base::future_conv_promise_base') or 'awaiter::awaiter' in norm(e.get('callee') or '') or norm(e.get('callee') or '').endswith('::awaiter')):
                 for a in e.get('args', []):
                     p = a.get('path') or ''
                     m = re.search(r'lambda@(\S+?)\)*$', p)
